@@ -31,7 +31,7 @@ impl Matcher for EmptyMatcher {
                         file_info.path().display(),
                         err
                     )
-                    .unwrap();
+                    .ok();
                     false
                 }
             }
@@ -45,7 +45,7 @@ impl Matcher for EmptyMatcher {
                         file_info.path().display(),
                         err
                     )
-                    .unwrap();
+                    .ok();
                     false
                 }
             }
